@@ -25,7 +25,7 @@ IDENTITY = re.compile(
     r"|::borrow$|::borrow_mut$|::deref$|::deref_mut$|::unwrap$|::expect$|::unwrap_or_default$|::unwrap_or$|::ok_or$|::ok_or_else$|::ok$|::copied$|::cloned$"
     r"|Try>::branch$|::from_residual$|::into_iter$|::iter$|::iter_mut$|::next$|::into_inner$|::read$|::write$|::lock$|::as_deref$|::as_deref_mut$"
     r"|::to_ascii_uppercase$|::to_uppercase$|::to_lowercase$|::to_ascii_lowercase$|::trim$|::take$|::first$|::last$|::get$|::get_mut$|::rev$|::enumerate$|::peekable$|::by_ref$"
-    r"|::collect$|::from_iter$|box_assume_init_into_vec_unsafe$|::assume_init$|::as_bytes$|::into_boxed_slice$|::into_vec$|Box::<.*>::new$|Arc::<.*>::new$|RwLock::<.*>::new$|::unwrap_unchecked$|::into_bytes$|::chars$|::drain$|mem::take$|mem::replace$)"
+    r"|::entry$|::or_insert$|::or_insert_with$|::or_insert_with_key$|::or_default$|::into_mut$|::collect$|::from_iter$|box_assume_init_into_vec_unsafe$|::assume_init$|::as_bytes$|::into_boxed_slice$|::into_vec$|Box::<.*>::new$|Arc::<.*>::new$|RwLock::<.*>::new$|::unwrap_unchecked$|::into_bytes$|::chars$|::drain$|mem::take$|mem::replace$)"
 )
 # wrappers whose constructor/variant structure is transparent for paths
 TRANSPARENT_VARIANTS = {"Some", "Ok", "Continue"}
@@ -36,6 +36,7 @@ COMPARE = re.compile(r"cmp::(PartialEq|PartialOrd|Ord|Eq)(<.*>)?>::(eq|ne|lt|le|
 CONSTRUCTORS = [
     (re.compile(r"(vlsir::raw|layout21protos|vlsir::utils)::Point::new$"), ["x", "y"]),
 ]
+ENTRY_VIEWS = ("Entry", "OccupiedEntry", "VacantEntry")
 INDEX = re.compile(r"ops::Index(Mut)?<.*>>::index(_mut)?$|::index$|::index_mut$|::get_unchecked(_mut)?$")
 
 
@@ -170,6 +171,9 @@ class FnInfo:
         # Option<&mut T> / Result<&T, E> temporaries (get_mut(..), as_mut(), first(), ...) are views too
         if ty.get("k") == "adt" and ty["id"].split("::")[-1] in ("Option", "Result") and ty.get("args"):
             return ty["args"][0].get("k") in ("ref", "ptr")
+        # map entries (`map.entry(k)`) are mutable views into the map they were taken from
+        if ty.get("k") == "adt" and ty["id"].split("::")[-1] in ENTRY_VIEWS:
+            return True
         return False
 
     @staticmethod
@@ -293,7 +297,8 @@ class Flow:
                                 if cpt is not None and not (1 <= cpt[0] <= b.argc):
                                     extra.append((cpt[0], (cpt[1], "eff", (t, j), False, bi)))
                     continue
-                if lt.get("k") not in ("ref", "ptr") or not lt.get("mut"):
+                is_entry = lt.get("k") == "adt" and lt["id"].split("::")[-1] in ENTRY_VIEWS
+                if (lt.get("k") not in ("ref", "ptr") or not lt.get("mut")) and not is_entry:
                     continue
                 pt = self.pointee(fid, pl["l"])
                 if pt is None:
